@@ -1044,9 +1044,9 @@ class MyPyAstVisitor:
                 types = [self.mypy_type_to_abstract_type(arg) for arg in getattr(unanalyzed_type, "args", [])]
                 if len(types) == 1:
                     return sds_types.FinalType(type_=types[0])
-                elif len(types) == 0:  # pragma: no cover
-                    raise ValueError("Final type has no type arguments.")
-                return sds_types.FinalType(type_=sds_types.UnionType(types=types))
+                elif len(types) >= 2:
+                    return sds_types.FinalType(type_=sds_types.UnionType(types=types))
+                # "Final" without type argument: the type is inferred by mypy and handled below
             elif unanalyzed_type_name in {"list", "set"}:
                 type_args = getattr(mypy_type, "args", [])
                 if (
